@@ -355,12 +355,41 @@ def refill_ok(case):
     return case.get('kind') == 'chain'       # graham_scan cases must stay on the integer lattice
 
 
+def _wraps(P):
+    """Integer-typed curve whose orientation products (dx * dy of two coordinate differences) can exceed 2**63."""
+    P = np.asarray(P)
+    if P.ndim != 2 or P.shape[1] != 2 or P.dtype.kind not in 'iu' or len(P) < 3:
+        return False
+    return float(np.ptp(P[:, 0].astype(float))) * float(np.ptp(P[:, 1].astype(float))) > 2.0 ** 62
+
+
+def chain_monitor(ctx, which, original, points, result):
+    """check_chain, with one mechanism classified apart: on an integer-typed curve whose orientation products do not fit
+    int64, a chain that violates the hull definition while the routine's answer for the float64 representation of the
+    same values satisfies it is the int64 wrap-around of the orientation predicate (key chain:<which>:int64-overflow)."""
+    if _wraps(points):
+        from ..ctx import Ctx
+        dry = Ctx(ctx.prop, ctx.tier, ctx.seed, ctx.shard, ctx.nshards)
+        check_chain(dry, which, points, result)
+        if dry.vkeys:
+            Pf = np.asarray(points, dtype=float)
+            dry2 = Ctx(ctx.prop, ctx.tier, ctx.seed, ctx.shard, ctx.nshards)
+            check_chain(dry2, which, Pf, original(Pf))
+            if not dry2.vkeys:
+                ctx.violation(f'chain:{which}:int64-overflow', f'chain:{which}:int64-overflow',
+                              f'graham_scan_{which} on an int64 curve of magnitude {float(np.max(np.abs(points))):.3g}: ' + dry.violations[0]['what']
+                              + ' - the float64 representation of the same values gets a correct chain (int64 products in the orientation predicate wrap)',
+                              n=len(points), result=result)
+                return
+    check_chain(ctx, which, points, result)
+
+
 def setup(ctx, mods):
     def post_lower(ctx, original, args, kwargs, result):
-        check_chain(ctx, 'lower', args[0] if args else kwargs['points'], result)
+        chain_monitor(ctx, 'lower', original, args[0] if args else kwargs['points'], result)
 
     def post_upper(ctx, original, args, kwargs, result):
-        check_chain(ctx, 'upper', args[0] if args else kwargs['points'], result)
+        chain_monitor(ctx, 'upper', original, args[0] if args else kwargs['points'], result)
 
     def post_graham(ctx, original, args, kwargs, result):
         check_graham(ctx, args[0] if args else kwargs['points'], result)
@@ -541,6 +570,10 @@ def cases(rng, tier, shard, nshards):
         else:
             pts, meta = gen.curve(rng, nmax=80)
             fam = meta['family']
+        if rng.random() < 0.03:
+            # integral coordinates of magnitude 1e9..1e10 as int64: orientation products do not fit int64
+            yield {'kind': 'chain', 'points': gen.large_int_curve(rng, nmax=40), 'family': 'large-int64', 'layout': 'i64'}
+            continue
         yield {'kind': 'chain', 'points': pts, 'family': fam, 'layout': gen.pick_layout(rng, pts)}
     if shard == 0:
         for s in FIXED_SETS:
